@@ -8,24 +8,39 @@ From Muduo Require Import Gen_Consts Gen_C06 Gen_C07 C06_Model C06_Proofs C07_Mo
 Import ListNotations.
 Local Open Scope Z_scope.
 
-(* Full statement (C07_cancel_stops): after Cancel id has been processed, no ERun of that timer is
-   ever emitted again.  Proved part: cancelling a registered, not yet expired timer (its id is in
-   activeTimers_) erases it from both sets and frees the object, and afterwards NO live object
-   carries its sequence number ([gone]); sequence numbers are never reused (C07_seq_unique) and
-   callbacks are only run through live objects.  Missing: the trace-level induction "gone stays
-   gone for every continuation, hence no later ERun", and the same-batch case (a repeater
-   cancelled from its own / a sibling callback is not re-inserted) -- both are covered by the
-   oracle of the correspondence check only. *)
-Theorem C07_cancel_stops_partial : forall c ops st evs a s,
+(* After Cancel id of a registered, not yet expired timer (its id is in activeTimers_) has been
+   processed, the timer NEVER runs again, whatever ops follow (adds at the same address, expiries,
+   foreign ops, ...), and its sequence number never comes back.  The cancel itself erases it from
+   both sets and frees the object (C07_cancel_erases).
+   Not covered by a theorem (tied by the oracle of the correspondence check only): a cancel issued
+   from inside an expiry batch against a member of that same batch (self / sibling cancel of a
+   repeater is not re-inserted; a one-shot is deleted anyway -- after the batch both are dead and
+   C07_dead_id_never_runs applies). *)
+Theorem C07_cancel_stops : forall c ops st evs a s ops2 st2 evs2,
+  run (init c) ops = Ok (st, evs) -> In (a, s) (active st) ->
+  run st (Cb (CCancel a s) :: ops2) = Ok (st2, evs2) ->
+  (forall dl now t, ~ In (ERun s dl now t) evs2) /\ gone st2 s.
+Proof. exact cancel_stops. Qed.
+Print Assumptions C07_cancel_stops.
+
+Theorem C07_cancel_erases : forall c ops st evs a s,
   run (init c) ops = Ok (st, evs) -> In (a, s) (active st) ->
   exists st', step st (Cb (CCancel a s)) = Ok (st', []) /\ gone st' s /\ ~ In (a, s) (active st') /\
     (forall d, ~ In (d, a) (timers st')) /\ hget a (heap st') = None.
 Proof. exact cancel_active. Qed.
-Print Assumptions C07_cancel_stops_partial.
+Print Assumptions C07_cancel_erases.
+
+(* An id whose Timer object is dead (it ran as a one-shot, was cancelled, was deleted after a
+   same-batch cancel) never runs again and stays dead, for every continuation from ANY state. *)
+Theorem C07_dead_id_never_runs : forall st s ops2 st2 evs2, gone st s -> run st ops2 = Ok (st2, evs2) ->
+  (forall dl now t, ~ In (ERun s dl now t) evs2) /\ gone st2 s.
+Proof. exact dead_stays_dead. Qed.
+Print Assumptions C07_dead_id_never_runs.
 
 (* The faithful model falsifies the full text in one more situation: a loop-thread cancel(id) that
    is processed while the foreign thread's addTimerInLoop is still queued finds nothing, and the
-   timer is registered afterwards and runs (finding C07-b, corpus/C07/cancel_queued_add.case). *)
+   timer is registered afterwards and runs (finding C07-b, corpus/C07/cancel_queued_add.case); C07_cancel_stops therefore carries the
+   hypothesis "the id is in activeTimers_" (the add has been processed). *)
 Definition lost_cancel_ops : list op :=
   [Cb (CFAdd 2000 0 10); Cb (CCancel 10 1); RunPending; Cb (CTick 1500); Fire []].
 Theorem C07_cancel_before_queued_add_refuted :
@@ -96,5 +111,12 @@ Example C07_stale_reuse_nonvacuous :
 Proof. vm_compute. auto. Qed.
 Example C07_cancel_active_nonvacuous :
   match run (init 1000) [Cb (CAdd 2000 500 10)] with
-  | Ok (st, _) => In (10, 1) (active st) | _ => False end.
+  | Ok (st, _) => In (10, 1) (active st) /\
+      match run st [Cb (CCancel 10 1); Cb (CAdd 2000 500 10); Cb (CTick 1500); Fire []] with
+      | Ok (st2, evs2) =>   (* the cancelled repeater never runs; the timer that reused its address does *)
+          forallb (fun p => negb (o_seq (snd p) =? 1)) (heap st2) = true /\
+          existsb (fun e => match e with ERun 2 _ _ _ => true | _ => false end) evs2 = true /\
+          existsb (fun e => match e with ERun 1 _ _ _ => true | _ => false end) evs2 = false
+      | _ => False end
+  | _ => False end.
 Proof. vm_compute. auto. Qed.
